@@ -135,14 +135,29 @@ Theorem C19_quiescent_every_disposed_row_reclaimed_exactly_once :
 Proof. exact quiescent_all_reclaimed. Qed.
 Print Assumptions C19_quiescent_every_disposed_row_reclaimed_exactly_once.
 
-(* No row is ever lost: from EVERY reachable state (any number of destructors in flight, the owner anywhere in its
-   walk) there is a continuation -- each busy disposer finishes its push, the owner finishes its walk and drains once
-   more -- that reaches quiescence, where every disposed row has been reclaimed exactly once. *)
-Theorem C19_no_row_is_ever_lost :
+(* PARTIAL (possibility, not inevitability): from EVERY reachable state (any number of destructors in flight, the owner anywhere in
+   its walk) there EXISTS a continuation -- each busy disposer finishes its push, the owner finishes its walk and drains once more --
+   that reaches quiescence, where every disposed row has been reclaimed exactly once.  So no reachable state has lost a row for good.
+   NOT proved: that every fair schedule gets there (the push is lock-free, not wait-free: a CAS can fail unboundedly often under
+   interference or spuriously, and the owner may simply never drain again). *)
+Theorem C19_quiescence_reachable_from_every_state_partial :
   forall s, reachable s ->
   exists ls s', run s ls = Some s' /\ quiescent s' /\ Permutation (disposed s') (reclaimed s').
 Proof. exact quiescence_reachable. Qed.
-Print Assumptions C19_no_row_is_ever_lost.
+Print Assumptions C19_quiescence_reachable_from_every_state_partial.
+
+(* ... complemented by deadlock freedom: a destructor that is not idle always has its next step enabled, whatever the other threads
+   do (and C19_owner_walk_progress says the same for the owner's walk) *)
+Theorem C19_disposer_never_blocked :
+  forall s t,
+  match dpcs s t with
+  | Idle => True
+  | Start _ => step s (DLoad t) <> None
+  | Loaded _ _ => step s (DLink t) <> None
+  | Linked _ _ => forall sp, step s (DCas t sp) <> None
+  end.
+Proof. exact disposer_never_blocked. Qed.
+Print Assumptions C19_disposer_never_blocked.
 
 (* Race freedom of the protocol's plain memory accesses under the interleaving (sequentially consistent) semantics:
    whenever the disposer's plain store of the link word (DLink), the owner's plain load of it (ORead) or the pool's
